@@ -158,7 +158,21 @@ def gen_case(rng, nitems):
     return '%s : %s' % (iface, ' ; '.join(items))
 
 
+EXH_ITEMS = ['D N u8 1', 'D - u8 2', 'D - u32 3', 'D - u8 -', 'B - 0', 'B - 5', 'B N 1', 'Op', 'D N ld 3fff8000000000000000']
+
+
+def exhaustive(maxlen):
+    """all sequences over EXH_ITEMS (N = named) up to the given length"""
+    import itertools
+    out = []
+    for n in range(1, maxlen + 1):
+        for t in itertools.product(EXH_ITEMS, repeat=n):
+            out.append('i : ' + ' ; '.join(s.replace(' N ', ' %d ' % i) for i, s in enumerate(t)))
+    return out
+
+
 BOUNDARY = [
+    'T',
     'i : D - u8 -',
     'i : D - u8 - ; B 1 0 ; B - 0 ; D - i16 -',
     'i : D 0 u8 1 ; D - u8 2 ; D - u8 3 ; D - u8 4 ; D - u8 5 ; D - u8 6 ; D - u8 7 ; D - u8 8',
@@ -351,6 +365,8 @@ def build(variant='plain'):
 
 
 def kinds_of(c):
+    if ':' not in c:
+        return []
     return [s.split()[0] for s in c.split(':', 1)[1].split(';') if s.strip()]
 
 
@@ -382,12 +398,13 @@ def run(chk):
     corpus = os.path.join(vlib.VERIF, 'corpus', 'c14.txt')
     if os.path.exists(corpus):
         cases += [l.strip() for l in open(corpus) if l.strip() and not l.startswith('#')]
+    cases += exhaustive(3 if quick else 5)
     nfixed = len(cases)
     rng = chk.rng('items')
     nrand = 15000 if quick else 120000
     for i in range(nrand):
         cases.append(gen_case(rng, rng.choice([1, 2, 3, 5, 8, 12, 20, 30])))
-    chk.log('%d cases (%d boundary/corpus, %d random)' % (len(cases), nfixed, nrand))
+    chk.log('%d cases (%d boundary/corpus/exhaustive, %d random)' % (len(cases), nfixed, nrand))
     for c in cases:
         ks = kinds_of(c)
         chk.count(c, nontrivial=sum(1 for k in ks if k in 'DBREL') >= 2)
@@ -400,7 +417,9 @@ def run(chk):
                       'breakers) built through the public API, loaded and linked by mir.c; compared with the extracted '
                       'Coq model: section head and offset of every item, malloc size of every section, every byte of '
                       'every section (lref bytes from the engine\'s laddr addresses; long-double padding is a wildcard), jmpi through label addresses, '
-                      'lref values against label addresses in the same engine; non-trivial = >= 2 data-like items')
+                      'lref values against label addresses in the same engine; the _MIR_type_size table against tsize; all '
+                      'sequences over %d fixed items up to length %d; non-trivial = >= 2 data-like items' % (
+                          len(EXH_ITEMS), 3 if quick else 5))
     for c in cases[nfixed:nfixed + 3]:
         chk.sample(c)
     bad, outs = correspond(impl, model, cases)
